@@ -8,6 +8,7 @@ import HavocVerif.Driver.C08
 import HavocVerif.Driver.C09
 import HavocVerif.Driver.C10
 import HavocVerif.Driver.C12
+import HavocVerif.Driver.C15
 /-
   Line-protocol driver.  `driver <property> < ops.txt` prints one verdict per
   input line, prefixed with the 1-based line number.  A line `reset` starts a
@@ -34,6 +35,7 @@ def stepperFor (prop : String) : Option Stepper :=
   | "C09" => some ⟨Forest, {}, DriverC09.step⟩
   | "C10" => some ⟨DriverC10.St, {}, DriverC10.step⟩
   | "C12" => some ⟨DriverC12.St, {}, DriverC12.step⟩
+  | "C15" => some ⟨DriverC15.St, {}, DriverC15.step⟩
   | _ => none
 
 partial def loop (h : IO.FS.Stream) (out : IO.FS.Stream) (S : Stepper) (st : S.σ) (n : Nat) : IO Unit := do
